@@ -633,3 +633,65 @@ def rule_seek_origin(ctx):
             ctx.holds("SEEKORIGIN", key, f.where(), "the adjusted offset is never forwarded together with the original origin", nontrivial=True)
     ctx.floor("SEEKORIGIN", 3, n, "(seek routines that make the offset absolute)")
     return n
+
+
+class _SpecialFirst(PathAnalysis):
+    """user = True once `access_rec->special` was seen to be zero on the path"""
+
+    def __init__(self, prog):
+        super().__init__(prog)
+        self.sites = {}
+
+    def init_user(self, func):
+        return False
+
+    def on_assume(self, func, bid, cond, pol, env, user):
+        c = strip(cond)
+        if (mem_field(c) or (0, 0)) == ("accrec_t", "special"):
+            return (not pol) or user if not pol else user
+        if kind(c) == "bin" and c[1] in ("==", "!=") and (mem_field(c[2]) or (0, 0)) == ("accrec_t", "special") and is_int(c[3]) and int_val(c[3]) == 0:
+            if (c[1] == "==") == pol:
+                return True
+        if kind(c) == "un" and c[1] == "!" and (mem_field(c[2]) or (0, 0)) == ("accrec_t", "special") and pol:
+            return True
+        return user
+
+    def on_stmt(self, func, bid, idx, stmt, env, user):
+        for c in calls_in(stmt["e"]):
+            if c[1] == "HTPupdate" and c[3] and (mem_field(c[3][0]) or (0, 0)) == ("accrec_t", "ddid"):
+                k = (c[5], c[6])
+                self.sites[k] = self.sites.get(k, True) and bool(user)
+        return user
+
+
+SPECIALFIRST_EXCEPT = {
+    "Hsetlength": "guarded by `access_rec->new_elem == TRUE`, which only Hstartaccess sets, for a plain element it has just created (special creators leave new_elem 0)",
+}
+
+
+def rule_special_first(ctx):
+    """SPECIALFIRST (C01): the descriptor behind an access record of a *special* element describes the element's header, not
+    its data.  A generic H-layer routine may therefore rewrite offset/length of `access_rec->ddid` (HTPupdate) only on paths
+    where `access_rec->special` was seen to be zero (special elements are dispatched to their table or refused first)."""
+    prog = ctx.prog
+    n = 0
+    for f in prog.lib_funcs():
+        if not f.rel.endswith("hfile.c"):
+            continue
+        if not any(c[1] == "HTPupdate" and c[3] and (mem_field(c[3][0]) or (0, 0)) == ("accrec_t", "ddid") for _b, _i, _s, c in f.calls()):
+            continue
+        a = _SpecialFirst(prog)
+        a.fails = fail_values(f, prog)
+        a.run(f)
+        for k, ok in sorted(a.sites.items()):
+            n += 1
+            key = "SPECIALFIRST:%s" % f.name
+            if ok:
+                ctx.holds("SPECIALFIRST", key, f.where(k[0]), "HTPupdate on the element's descriptor only after `special` was seen zero", nontrivial=True)
+            elif f.name in SPECIALFIRST_EXCEPT:
+                ctx.excepted("SPECIALFIRST", key, f.where(k[0]), SPECIALFIRST_EXCEPT[f.name])
+            else:
+                ctx.violated("SPECIALFIRST", key, f.where(k[0]), "%s rewrites the descriptor of the element behind the access record without having excluded special elements: "
+                             "for a linked-block / compressed / chunked / external element this truncates or moves the special header" % f.name)
+    ctx.floor("SPECIALFIRST", 3, n, "(HTPupdate calls on access_rec->ddid in hfile.c)")
+    return n
